@@ -35,6 +35,24 @@ FAMILIES = [
     ('ipv6-mpls-vpn', AFI.ipv6, SAFI.mpls_vpn, 'exabgp.bgp.message.update.nlri.ipvpn:IPVPN', IPVPN, 'IPVPNBase.unpack_nlri', 'data'),
 ]
 
+def _from_cidr_bytes(it, args, kwargs, fr, node):
+    """CIDR.from_ipv4 / from_ipv6(<length octet> + <prefix octets>) at its call site in the decoders: RFC 4271 4.3 --
+    "the value of trailing bits is irrelevant": the prefix handed on has them CLEARED, so that two spellings of one prefix
+    are one route (one index, one RIB entry)"""
+    import z3
+
+    arg = args[-1]
+    if isinstance(arg, VBytes):
+        n = to_z3(arg.length())
+        m = to_z3(arg.at(0))
+        last = to_z3(arg.at(simp(n - 1)))
+        r = m % 8
+        # one obligation per residue of the length: with the shift amount fixed the mask is a constant for the solver
+        for k in range(1, 8):
+            it.ctx.oblige(f'prefix:trailing-bits-cleared:{k}', 'post', z3.Implies(z3.And(r == k, n > 1), last % (1 << (8 - k)) == 0), f'length % 8 == {k}: the {8 - k} bits of the last prefix octet beyond the prefix length are zero in what is stored (RFC 4271 4.3)')
+    return VObj(None, {'opaque!': True, 'bool!': True}, 'cidr')
+
+
 for tag, afi, safi, klass, file_, fn, buf in FAMILIES:
     rd = Family.size.get((afi, safi), (0, 0))[1]
     lets = {'P': '(4 if addpath else 0)', 'M': f'{buf}[P]', 'buf0': buf}
@@ -56,7 +74,7 @@ for tag, afi, safi, klass, file_, fn, buf in FAMILIES:
             'negotiated': obj(None),
         },
         lets=lets,
-        callees={'CIDR.size': _size},
+        callees={'CIDR.size': _size, 'CIDR.from_ipv4': _from_cidr_bytes, 'CIDR.from_ipv6': _from_cidr_bytes},
         opaque_calls=True,
         loops={
             0: {
@@ -78,7 +96,10 @@ for tag, afi, safi, klass, file_, fn, buf in FAMILIES:
             'subview(result[1], buf0)',
             'voff(result[1]) == voff(buf0) + P + 1 + (M + 7) // 8',
             'voff(result[1]) + len(result[1]) == voff(buf0) + len(buf0)',
-        ],
+        ]
+        # the mpls-vpn decoder stores the octets itself (no CIDR constructor to put the obligation on): RFC 4271 4.3, the bits
+        # of the last prefix octet beyond the prefix length are zero in what is stored
+        + ([f'implies(mask % 8 == {k} and size > 0, network[size - 1] % {1 << (8 - k)} == 0)' for k in range(1, 8)] if fn.startswith('IPVPNBase') else []),
         canaries=canaries,
         notes=[f'instance for {tag} (route distinguisher of {rd} octets); PathInfo / RouteDistinguisher / CIDR / Labels constructors, cls.from_cidr and object.__new__ are callees without contract: results unconstrained'],
     )
